@@ -121,11 +121,11 @@ theorem detach_spec {f : Forest} {n : Nat} {keep : Keep} (hkeep : ∀ a b, a ≠
     have s1 : SiteAt ((f.editAt (some p) (dropTop k.handle)).editAt none (insertLast k)) p v (l ++ ([] ++ r)) := by
       constructor
       · show (handlesList ((f.roots.map (HTree.editAt p (dropTop k.handle))) ++ [k])).Nodup
-        rw [handlesList_append, handlesList_cons, handlesList_nil, List.append_nil]
+        rw [fs_handlesList_append, handlesList_cons, handlesList_nil, List.append_nil]
         have hperm := handlesList_editAt_perm (g := dropTop k.handle) (E := handles k)
           (by
             rw [hdrop]
-            simp only [handlesList_append, handlesList_cons]
+            simp only [fs_handlesList_append, handlesList_cons]
             rw [List.append_assoc]
             exact List.Perm.append_left _ List.perm_append_comm) f.roots nd s.kids
         exact hperm.symm.nodup nd
